@@ -222,6 +222,31 @@ Example C14_reply_segment_example :
   fst (CheckRsp.frame_sig ex_seg (CheckRsp.mkJ (Some 4294967290) 0 []) (ex_zeroed (ex_frame (ex_reply ++ [33]%N)))) = CheckRsp.SIG_TCPSUM.
 Proof. vm_compute. repeat split; reflexivity. Qed.
 
+(* a single write (Socket.Write; the verif hook VerifCanary.Write): for EVERY length, zero included,
+   exactly one PSH|ACK segment carrying the bytes at SND.NXT, acknowledging RCV.NXT, addressed back;
+   SND.NXT advances by the length (mod 2^32) and nothing else of the State moves.  (The code does not
+   cut a long write to any segment size: the model says so, the property does not ask for it.) *)
+Theorem C14_one_write_one_segment : forall t k w c,
+  find_key t k = Some c ->
+  exists o c',
+    write_step t k w = Some (tput t c', o) /\
+    data_out c (c_nxt c) w o /\
+    c_nxt c' = u32 (c_nxt c + zlen w) /\ c_rcv c' = c_rcv c /\ c_st c' = c_st c /\ c_key c' = c_key c /\
+    c_una c' = c_una c /\ c_ring c' = c_ring c.
+Proof. exact write_step_frame. Qed.
+
+Example C14_write_lengths_example :
+  let c := mkConn 1 Estab 4294967000 4294967001 4294967001 77 7 [10;0;0;1]%N 4000 [127;0;0;1]%N 5555 [] true in
+  map (fun w => match write_step [Some c] 1 w with
+                | Some (_, o) => (zlen (tcp_bytes o), o_seq o,
+                                  fold3 (segment_verify_sum (o_sip o) (o_dip o) (tcp_bytes o)))
+                | None => (0, 0, 0)
+                end) [[]; [255]%N; repeat 255%N 1461]
+  = [(20, 4294967001, 65535); (21, 4294967001, 65535); (1481, 4294967001, 65535)] /\
+  map o_seq (fst (conn_writes c [repeat 0%N 200; [1;2;3]%N; []; repeat 255%N 100])) = [4294967001; 4294967201; 4294967204; 4294967204] /\
+  c_nxt (snd (conn_writes c [repeat 0%N 200; [1;2;3]%N; []; repeat 255%N 100])) = 8.
+Proof. vm_compute. repeat split; reflexivity. Qed.
+
 (* non-vacuity of the contract's hypotheses and of the sum being unbounded: a segment of 131101
    bytes (odd), whose sum no uint32 could hold, still verifies *)
 Definition ex_big : bytes := repeat 255%N (N.to_nat 131101).
@@ -256,3 +281,4 @@ Print Assumptions C14_update_checksum_is_ones_complement.
 Print Assumptions C14_emitted_segment_uses_update_checksum.
 Print Assumptions C14_writes_count_bytes_sent.
 Print Assumptions C14_decoder_answer_then_fin.
+Print Assumptions C14_one_write_one_segment.
